@@ -90,11 +90,11 @@ func genPool(t *rapid.T, typ string, size int, o genOpts, label string) []cell {
 }
 
 type genData struct {
-	pc    *PKCase
-	types map[string]string // column -> type (incl. time)
-	pools map[string][]cell
-	cells [][]cell // generated rows (unsorted), per allCols
-	all   []Col
+	pc     *PKCase
+	types  map[string]string // column -> type (incl. time)
+	pools  map[string][]cell
+	cells  [][]cell // generated rows (unsorted), per allCols
+	all    []Col
 	wantIn bool // the next atom is rendered as IN (...): the key condition is expected to reject it
 }
 
@@ -642,7 +642,9 @@ func TestPKAtom(t *testing.T)  { runPK(t, "pk_atom", genOpts{lang: "atom", maxRo
 func TestPKAnd(t *testing.T)   { runPK(t, "pk_and", genOpts{lang: "and", maxRows: 160}) }
 func TestPKAndOr(t *testing.T) { runPK(t, "pk_andor", genOpts{lang: "andor", maxRows: 160}) }
 func TestPKFull(t *testing.T)  { runPK(t, "pk_full", genOpts{lang: "full", maxRows: 400}) }
-func TestPKNulls(t *testing.T) { runPK(t, "pk_nulls", genOpts{lang: "full", nulls: true, maxRows: 160}) }
+func TestPKNulls(t *testing.T) {
+	runPK(t, "pk_nulls", genOpts{lang: "full", nulls: true, maxRows: 160})
+}
 func TestPKCoerce(t *testing.T) {
 	runPK(t, "pk_coerce", genOpts{lang: "coerce", mixedNum: true, maxRows: 120})
 }
